@@ -535,7 +535,7 @@ func TestVerifC11(t *testing.T) {
 		return
 	}
 	st := newVStats()
-	deadline := rep.Deadline(75*time.Second, 18*time.Minute)
+	deadline := rep.Deadline(85*time.Second, 18*time.Minute)
 
 	var mu sync.Mutex
 	seen := map[string]bool{}
